@@ -2,6 +2,7 @@ import FatVerif.Model.HistMain
 import FatVerif.Spec.OracleUtil
 import FatVerif.Spec.OracleGround
 import FatVerif.Spec.ByteFile
+import FatVerif.Model.SlotTreeOracle
 /-! Property oracles evaluated on the implementation's own behaviour (history mode).
 
     `oracle.step` sees every completed operation of a history (`HistMain.OpView`): the op text, its result, its device
@@ -89,6 +90,9 @@ structure OState where
   mountFsInfoUnknown : Bool := false
   /-- C13: no mutating operation was issued since the `mount` -/
   roWindow : Bool := false
+  /-- C14: what a successful `flush`/`dropf` made durable, per file path: the content the API calls wrote (the
+      byte-array specification of the handle), until the file is modified again -/
+  durable : List (List String × List Nat) := []
   expects : List Expect := []
   /-- the model's pending entry records after the previous operation (= before this one) -/
   prevOverlay : Option (List (Nat × List Nat)) := some []
@@ -112,6 +116,8 @@ structure OState where
   taintedExact : List String := []
   /-- C20: the last-cluster check has been made -/
   lastChecked : Bool := false
+  /-- C01: the slot-tree model's state beside the implementation (`Model/SlotTreeOracle.lean`); `none` = not tracking -/
+  slot : Option SlotTree.Node := none
   deriving Inhabited
 
 /-! ## Small helpers -/
@@ -277,7 +283,8 @@ def update (st : OState) (v : OpView) (c : Ctx) : OState :=
     if !c.ok then st else
     let g0 := match parseGeom v.before with | .ok g => some g | .error _ => none
     let unknown := match g0 with
-      | some g => (match fsInfo g v.before with | some (some _, _) => false | _ => true)
+      -- a stored count larger than the number of clusters is no count (C13's exception: "lacks a free count")
+      | some g => (match fsInfo g v.before with | some (some n, _) => n > g.totalClusters | _ => true)
       | none => true
     let status := match g0 with | some g => v.before.getByte g.statusByteOffset | none => 0
     { st with geom := gAfter, mounted := true, dirs := ({} : Std.HashMap Nat (List String)).insert 0 [], files := {},
@@ -827,30 +834,39 @@ def oC13 (st st' : OState) (v : OpView) (c : Ctx) : List String :=
     c.writes.filterMap fun (off, bs) =>
       let inFsInfo := (classify g off bs.length).all fun (r, _, _) => r == .fsInfo
       if fsInfoExempt && inFsInfo then none
-      else some s!"C13 readonly-write op={c.op} off={off} len={bs.length}"
+      else some s!"C13 readonly-write op={c.op} off={off} len={bs.length} (fs-info count unknown at mount: {unknown}, status byte at mount: {status})"
+
+def samePath (upper : Char → List Char) (a b : List String) : Bool :=
+  foldName upper (showPath a) == foldName upper (showPath b)
 
 /-! ## C14 -/
 
-def oC14 (v : OpView) (c : Ctx) : List String :=
+def oC14 (st : OState) (v : OpView) (c : Ctx) : List String :=
   match c.op, c.args, c.g with
   | "crashprobe", p :: _, some g =>
     match textOf p with
     | none => []
     | some path =>
-      match (pathInfo g v.before (lexPath [] (path.splitOn "/"))).entry with
-      | none => []
-      | some e =>
-        match fileContent g v.before e with
-        | .error _ => []
-        | .ok content =>
-          let want := Util.hexOfBytes (content.toList.map (·.toNat))
+      let pi := pathInfo g v.before (lexPath [] (path.splitOn "/"))
+      -- expected: what the API calls wrote before the flush (when the handle was tracked); else what the complete
+      -- image holds now
+      let tracked := (st.durable.find? fun (q, _) => samePath c.upper q pi.path).map (·.2)
+      let fromImage : Option (List Nat) := match pi.entry with
+        | none => none
+        | some e => match fileContent g v.before e with
+          | .error _ => none
+          | .ok content => some (content.toList.map (·.toNat))
+      match (match tracked with | some l => some l | none => fromImage) with
+        | none => []
+        | some contentL =>
+          let want := Util.hexOfBytes contentL
           let (_, msgs) := v.io.krows.foldl (fun (acc : String × List String) row =>
             let (prev, msgs) := acc
             match row.splitOn " " with
             | [j, "1", size, h] =>
               let h' := if h == "=" then prev else h
-              if size.toNat? == some content.size && h' == want then (h', msgs)
-              else (h', msgs ++ [s!"C14 crash-lost j={j} path={path} expected {content.size} bytes, the cut image has {size}{if size.toNat? == some content.size then " (different bytes)" else ""}"])
+              if size.toNat? == some contentL.length && h' == want then (h', msgs)
+              else (h', msgs ++ [s!"C14 crash-lost j={j} path={path} expected {contentL.length} bytes{if tracked.isSome then " (the flushed content)" else ""}, the cut image has {size}{if size.toNat? == some contentL.length then " (different bytes)" else ""}"])
             | j :: "0" :: _ => ("", msgs ++ [s!"C14 crash-lost j={j} path={path} the file is not found in the cut image"])
             | j :: "readerr" :: rest => ("", msgs ++ [s!"C14 crash-lost j={j} path={path} read error {rest}"])
             | j :: what :: rest => ("", msgs ++ [s!"C14 crash-unmountable j={j} {what} {" ".intercalate rest}"])
@@ -960,9 +976,6 @@ def fileImageContent (g : Geom) (img : Img) (path : List String) : Option (List 
       | .ok c => some (bytesOfBA c)
       | .error _ => none
   | none => none
-
-def samePath (upper : Char → List Char) (a b : List String) : Bool :=
-  foldName upper (showPath a) == foldName upper (showPath b)
 
 /-- bytes the operation wrote into data clusters (= how far a failing `write_all` got) -/
 def dataBytesWritten (g : Geom) (c : Ctx) : Nat :=
@@ -1304,7 +1317,12 @@ def stepO (st : OState) (v : OpView) : OState × List String :=
   | "C01" =>
     let (t, msgs) := oC01 st st' v c
     let skipped := st'.mounted && v.overlay.isNone && !st'.files.isEmpty
-    ({ st' with tree := t, treeStale := skipped && (st.treeStale || !c.writes.isEmpty) }, msgs)
+    -- the slot-tree model beside the implementation (correspondence check of `Model/SlotTree.lean`)
+    let (sl, smsgs, _) := SlotTreeOracle.step st.slot
+      { op := c.op, args := c.args, res := v.io.res, rows := v.io.rows, fault := v.io.fault.isSome,
+        mounted := st.mounted && st'.mounted, geom := st'.geom, before := v.before, after := v.after,
+        upper := c.upper, dirOf := dirOf st }
+    ({ st' with tree := t, slot := sl, treeStale := skipped && (st.treeStale || !c.writes.isEmpty) }, msgs ++ smsgs)
   | "C02" => oC02 st st' v c
   | "C08" =>
     let (pm, pc, stale, fmsgs) := runFsck st st' v c false
@@ -1328,7 +1346,31 @@ def stepO (st : OState) (v : OpView) : OState × List String :=
   | "C11" => ({ st' with tree := none }, oC11 st v c)
   | "C12" => ({ st' with tree := none }, oC12 st v c)
   | "C13" => ({ st' with tree := none }, oC13 st st' v c)
-  | "C14" => ({ st' with tree := none }, oC14 v c)
+  | "C14" =>
+    -- the byte-array specification of every tracked handle (C02's bookkeeping) tells what a flush must make durable
+    let (st2, m2) := oC02 st st' v c
+    let isFlush := (c.op == "flush" || c.op == "dropf") && c.ok
+    let flushMsgs := if !isFlush then [] else m2.filterMap fun m =>
+      match m.splitOn " " with
+      | _ :: sig :: rest =>
+        if sig == "write-count" || sig == "truncate-content" then
+          some s!"C14 flush-not-persisted ({sig}) {" ".intercalate rest}" else none
+      | _ => none
+    let erase (d : List (List String × List Nat)) (p : List String) := d.filter fun (q, _) => !samePath c.upper q p
+    let durable :=
+      if c.op == "format" then []
+      else match c.fh with
+        | some fs =>
+          if isFlush then
+            match fs.bf, flushMsgs.isEmpty with
+            | some b, true => (fs.path, b.content) :: erase st.durable fs.path
+            | _, _ => erase st.durable fs.path
+          else if ["write", "writeall", "truncate"].contains c.op then erase st.durable fs.path
+          else st.durable
+        | none =>
+          if c.op == "remove" || c.op == "rename" then c.primary.foldl erase st.durable else st.durable
+    let st3 := { st2 with durable := durable, tree := none }
+    (st3, flushMsgs ++ oC14 st3 v c)
   | "C18" =>
     let (msgs, listed, fa) := oC18 st v c
     let st' := match listed with
